@@ -829,9 +829,10 @@ def c04(report):
         raise Machinery("Multi deviation ReadsShared produced no counterexample")
     scheds = [e["sched"] for e in result.edges]
     rnd = __import__("random").Random(report.seed)
-    if report.tier != "thorough":
-        rnd.shuffle(scheds)
-        scheds = scheds[:60]
+    rnd.shuffle(scheds)
+    # TLC enumerates and checks ALL interleavings; a seeded sample of them is executed on real objects for every policy
+    # combination (all of them would be 3003 x 90 combinations x 2 label types x 3 interferer kinds)
+    scheds = scheds[:60] if report.tier != "thorough" else scheds[:400]
     findings, counters = [], {}
     multi.in_process(scheds, report.tier, report.seed, findings, counters)
     multi.across_processes(report.tier, report.seed, findings, counters, ROOT)
